@@ -67,6 +67,7 @@ class Result:
         self.state_ids = None
         self.per_depth = []
         self.capped = None
+        self.stopped_on_violation = False
         self.wall = 0.0
 
     def add_violation(self, sig, init, path, detail):
@@ -146,6 +147,7 @@ def bfs(
     nworkers=None,
     deadline=None,
     log=None,
+    stop_on_violation=True,
 ):
     t0 = time.perf_counter()
     res = Result()
@@ -208,10 +210,15 @@ def bfs(
         if log:
             log(f"  bfs depth {depth}: +{len(new_frontier)} states (total {len(seen)}), transitions {res.transitions}")
         frontier = new_frontier
+        if stop_on_violation and res.violations:
+            # the level is complete (shortest counterexamples first); exploring a broken system further only costs time
+            # and may not terminate (a defect can make a finite state space infinite)
+            res.stopped_on_violation = True
+            break
         if max_states is not None and len(seen) >= max_states and frontier:
             res.capped = f"state cap {max_states} hit after depth {depth}"
             break
-    res.exhausted = not frontier
+    res.exhausted = not frontier and not res.stopped_on_violation
     res.graph = edges
     res.state_ids = seen if want_graph else None
     res.wall = time.perf_counter() - t0
@@ -253,6 +260,7 @@ def feed(sub, res, what_by_sig=None, name="", rep=None):
             "depth_completed": res.depth_completed,
             "fixpoint_reached": res.exhausted,
             "capped": res.capped,
+            "stopped_on_violation": res.stopped_on_violation,
             "distinct_observations": len(res.obs),
             "event_hits": dict(res.event_hits),
             "paths_replayed_on_fresh_objects": res.replayed,
